@@ -43,8 +43,14 @@ pub enum Ev {
     ClientOpen { idx: u8 },
     /// the daemon exits and is started again at once
     Restart { gap_ns: i64 },
-    /// the daemon is killed and stays down until Revive
-    Kill { gap_ns: i64 },
+    /// the daemon is killed and stays down until Revive. torn = 0: killed between updates;
+    /// torn = k in 1..=7: killed inside its next update of the segment, after the odd generation
+    /// and the first k-1 8-byte words of the new record reached the file
+    Kill {
+        gap_ns: i64,
+        #[serde(default)]
+        torn: u8,
+    },
     Revive { gap_ns: i64 },
 }
 
@@ -122,6 +128,8 @@ pub struct E2eStats {
     pub polls: u64,
     pub sync_reports: u64,
     pub restarts: u64,
+    pub torn_kills: u64,
+    pub trusted_after_torn_kill: u64,
 }
 
 struct Driver {
@@ -144,6 +152,55 @@ struct Driver {
     loss_since_sync: bool,
     restart_since_sync: bool,
     last_report_tight: bool,
+    /// Some(k): the daemon dies inside its next update (see Ev::Kill)
+    tear_pending: Option<u8>,
+    torn_since_sync: bool,
+}
+
+/// The segment writer of the e2e world: the real ShmWriter, except that a pending torn kill stops
+/// the update half-way exactly as a SIGKILL inside ShmWriter::write would (odd generation stored,
+/// a prefix of the record copied), after which the daemon is down.
+struct E2eSink {
+    inner: clock_bound_shm::ShmWriter,
+    path: std::path::PathBuf,
+    driver: Rc<RefCell<Driver>>,
+}
+
+fn tear_update(path: &std::path::Path, rec: &crate::layout::Rec, k: u8) {
+    use std::os::unix::fs::FileExt;
+    let Ok(f) = std::fs::OpenOptions::new().write(true).read(true).open(path) else { return };
+    let mut g = [0u8; 2];
+    if f.read_exact_at(&mut g, crate::layout::OFF_GENERATION as u64).is_err() {
+        return;
+    }
+    let gen = u16::from_le_bytes(g);
+    let odd = if gen & 1 == 0 { gen.wrapping_add(1) } else { gen };
+    let _ = f.write_all_at(&odd.to_le_bytes(), crate::layout::OFF_GENERATION as u64);
+    let bytes = rec.encode();
+    let n = ((k as usize).saturating_sub(1) * 8).min(bytes.len());
+    let _ = f.write_all_at(&bytes[..n], crate::layout::HEADER_LEN as u64);
+}
+
+impl clock_bound_shm::ShmWrite for E2eSink {
+    fn write(&mut self, ceb: &clock_bound_shm::ClockErrorBound) {
+        let tear = self.driver.borrow_mut().tear_pending.take();
+        if let Some(k) = tear {
+            tear_update(&self.path, &crate::layout::Rec::from_ceb(ceb), k);
+            let mut d = self.driver.borrow_mut();
+            d.daemon_up = false;
+            d.restart_since_sync = true;
+            d.torn_since_sync = true;
+            d.stats.torn_kills += 1;
+            if let Some(b) = &d.dbox {
+                let _ = b.send(&ChannelId::ShmWriter, Message::ThreadAbort);
+            }
+            return;
+        }
+        self.inner.write(ceb);
+        // the publication is visible: continue the script until the next message is queued
+        let mut d = self.driver.borrow_mut();
+        let _ = d.advance();
+    }
 }
 
 #[derive(PartialEq, Debug)]
@@ -196,6 +253,9 @@ impl Driver {
         }
         if self.restart_since_sync {
             self.stats.trusted_after_restart += 1;
+        }
+        if self.torn_since_sync {
+            self.stats.trusted_after_torn_kill += 1;
         }
         if !self.daemon_up {
             self.stats.trusted_while_daemon_down += 1;
@@ -358,6 +418,7 @@ impl Driver {
                         self.last_sync_as_of = Some(as_of);
                         self.loss_since_sync = false;
                         self.restart_since_sync = false;
+                        self.torn_since_sync = self.tear_pending.is_some();
                     } else {
                         self.loss_since_sync = true;
                     }
@@ -381,9 +442,14 @@ impl Driver {
                     }
                     return Adv::Restart;
                 }
-                Ev::Kill { gap_ns } => {
+                Ev::Kill { gap_ns, torn } => {
                     self.now += gap_ns as i128;
                     if !self.daemon_up {
+                        continue;
+                    }
+                    if torn > 0 {
+                        // dies inside the update that its next message triggers
+                        self.tear_pending = Some(torn);
                         continue;
                     }
                     self.daemon_up = false;
@@ -443,6 +509,8 @@ pub fn run_e2e(case: &E2eCase, env: &mut Env) -> (Vec<String>, E2eStats) {
         loss_since_sync: false,
         restart_since_sync: false,
         last_report_tight: false,
+        tear_pending: None,
+        torn_since_sync: false,
     }));
     let mut guard = 0;
     'lives: loop {
@@ -474,15 +542,10 @@ pub fn run_e2e(case: &E2eCase, env: &mut Env) -> (Vec<String>, E2eStats) {
                 break;
             }
         };
-        let d2 = driver.clone();
-        let sink = HookSink {
+        let sink = E2eSink {
             inner: writer,
-            count: 0,
-            after: Box::new(move |_k, _rec| {
-                // the publication is visible: continue the script until the next message is queued
-                let mut d = d2.borrow_mut();
-                let _ = d.advance();
-            }),
+            path: path.clone(),
+            driver: driver.clone(),
         };
         let updater = dv::Updater::new(sink, case.drift_ppb);
         // prime: walk to the first poll of this life
@@ -575,7 +638,7 @@ fn event_strategy() -> BoxedStrategy<Ev> {
             .prop_map(|(idx, anchor, gap_ns, off_ns, pre_delay_ns, between_delay_ns)| Ev::Client { idx, anchor, gap_ns, off_ns, pre_delay_ns, between_delay_ns }),
         1 => (0u8..3).prop_map(|idx| Ev::ClientOpen { idx }),
         1 => gap_strategy().prop_map(|gap_ns| Ev::Restart { gap_ns }),
-        1 => gap_strategy().prop_map(|gap_ns| Ev::Kill { gap_ns }),
+        1 => (gap_strategy(), prop_oneof![1 => Just(0u8), 1 => 1u8..=7]).prop_map(|(gap_ns, torn)| Ev::Kill { gap_ns, torn }),
         1 => gap_strategy().prop_map(|gap_ns| Ev::Revive { gap_ns }),
     ]
     .boxed()
@@ -643,6 +706,13 @@ fn check_c01_case(case: &E2eCase, env: &mut Env) -> Verdict {
     if st.restarts > 0 {
         v.label("daemon-restarted");
     }
+    if st.torn_kills > 0 {
+        v.label("daemon-killed-inside-an-update");
+    }
+    if st.trusted_after_torn_kill > 0 {
+        v.label("trusted-after-kill-inside-update");
+        v.nontrivial = true;
+    }
     if case.traj.iter().any(|(d, s)| s.abs() == 1000 && *d > 100_000_000_000) {
         v.label("drift-at-max-for-100s");
     }
@@ -656,7 +726,7 @@ impl Property for C01 {
     type Case = E2eCase;
     const ID: &'static str = "C01";
     fn rule() -> String {
-        "cases = world scripts on a virtual monotonic axis: drift setting {1, 50, 500 ppm, random, 0}; machine uptime at daemon start (0..1000 s 57 %, hours, months); clock error at start +-1 ms / +-1 s; error trajectory of 1..7 linear pieces with slopes in [-drift,+drift] biased to the extremes; PHC configured or not; 1..60 events with gaps 1 ns..1500 s: Poll{latency, outcome in SyncValid (report constructed so that |offset|+disp+delay/2 on the wire >= |true error| at the reply instant, slack 0 in 55 %), Unsync, Stale, Unusable, Silence, BadReply}, Client{client index, placed after a gap or anchored at last as_of+5 s / void_after / last publication +-2 us, pre-emption delays before and between its two clock reads}, ClientOpen, Restart, Kill (daemon stays down), Revive. Real code end to end: poller iteration with scripted chronyd, mpsc, process_messages, ShmUpdater/FSM, ShmWriter, ClockBoundClient on one tmpfs file. Oracle: for every now() that returns Synchronized or FreeRunning, earliest - tol <= T(instant of that call's realtime read) <= latest + tol with T = clock - e(m) exact to 1e-9 ns, tol = 1 ns + half-width*2^-40. Non-trivial: a trusted result after a non-synchronised outcome / restart / with the daemon down, or with slack below 10 % of the half-width.".into()
+        "cases = world scripts on a virtual monotonic axis: drift setting {1, 50, 500 ppm, random, 0}; machine uptime at daemon start (0..1000 s 57 %, hours, months); clock error at start +-1 ms / +-1 s; error trajectory of 1..7 linear pieces with slopes in [-drift,+drift] biased to the extremes; PHC configured or not; 1..60 events with gaps 1 ns..1500 s: Poll{latency, outcome in SyncValid (report constructed so that |offset|+disp+delay/2 on the wire >= |true error| at the reply instant, slack 0 in 55 %), Unsync, Stale, Unusable, Silence, BadReply}, Client{client index, placed after a gap or anchored at last as_of+5 s / void_after / last publication +-2 us, pre-emption delays before and between its two clock reads}, ClientOpen, Restart, Kill (daemon stays down; in half of them the daemon dies inside its next update of the segment: odd generation stored and 0..6 leading words of the new record copied, as SIGKILL inside ShmWriter::write leaves it), Revive. Real code end to end: poller iteration with scripted chronyd, mpsc, process_messages, ShmUpdater/FSM, ShmWriter, ClockBoundClient on one tmpfs file. Oracle: for every now() that returns Synchronized or FreeRunning, earliest - tol <= T(instant of that call's realtime read) <= latest + tol with T = clock - e(m) exact to 1e-9 ns, tol = 1 ns + half-width*2^-40. Non-trivial: a trusted result after a non-synchronised outcome / restart / with the daemon down, or with slack below 10 % of the half-width.".into()
     }
     fn assumptions() -> Vec<String> {
         vec![
@@ -682,6 +752,7 @@ impl Property for C01 {
             ("trusted-interval-obtained", 0.5),
             ("trusted-after-loss", 0.2),
             ("trusted-after-restart", 0.1),
+            ("trusted-after-kill-inside-update", 0.02),
             ("tight-report-slack-0", 0.3),
             ("negative-offset-report", 0.3),
             ("asked-within-1us-of-a-threshold", 0.1),
